@@ -379,6 +379,14 @@ func (c *controlConn) reconnect() {
 		return
 	}
 
+	if atomic.LoadInt32(&c.state) == controlConnClosing {
+		// close() ran while we were connecting. It moves the state to closing before it closes
+		// the current connection, so either it saw the new connection or we see closing here:
+		// close the new connection, nobody else would.
+		conn.Close()
+		return
+	}
+
 	err = c.session.refreshRing()
 	if err != nil {
 		c.session.logger.Printf("gocql: unable to refresh ring: %v\n", err)
